@@ -30,7 +30,8 @@ CLUSTERS = [['x', 'x1', 'xx', 'x_1', 'x_000', 'x0', 'xF', 'xE', 'X', 'LAG_x'],
             ['e5', 'e', 'E', 'e_5', 'E3', 'xE', 'j', 'J', 'l', 'O'],
             ['a', 'b', 'ab', 'a_b', 'ba', 'b1', 'b101', 'o17'],
             ['HH__F', 'HH__F1', 'H__F', 'F', 'xF', '_12__F', '_1__F', '_12__F1'],
-            ['y', 'yy', 'LAG_y', 'k', 't']]
+            ['y', 'yy', 'LAG_y', 'k', 't'],
+            ['inf', 'nan', 'infinity', 'Infinity', 'NaN', 'INF', 'e5', 'j']]     # names float() would read as numbers
 
 FUNC_TABLE = {'max': max, 'min': min, 'abs': abs, 'sqrt': math.sqrt, 'exp': math.exp, 'log': math.log,
               'pow': pow, 'float': float}
@@ -45,18 +46,28 @@ def case(draw):
             if n not in pool:
                 pool.append(n)
     e = draw(gen.expression(pool, max_leaves=10, imag=True))
-    # A map: keys mostly from the pool (present names), sometimes absent names or function names
-    key_st = st.one_of(st.sampled_from(pool), st.sampled_from(pool), st.sampled_from(gen.NAME_POOL),
-                       st.sampled_from(gen.FUNCS))
+    if draw(gen.chance(1, 8)):
+        # the whole expression is one (signed, blank-padded) name or number
+        e = draw(st.sampled_from(['%s', '-%s', ' %s ', '+%s', '(%s)', '%s '])) % draw(st.sampled_from(pool + ['1e5', '0x1F']))
+    # A map: keys mostly names that occur in the expression (read with the harness lexer), sometimes absent names or
+    # function names
+    try:
+        present = list(dict.fromkeys(t for k_, t in expr.lex(e) if k_ == 'name' and t not in gen.FUNCS))
+    except expr.LexError:
+        present = []
+    present = present or list(pool)
+    order = present + [n for n in pool if n not in present]
+    key_st = st.one_of(st.sampled_from(present), st.sampled_from(present), st.sampled_from(pool),
+                       st.sampled_from(gen.NAME_POOL), st.sampled_from(gen.FUNCS))
     val_st = st.one_of(st.sampled_from(pool), st.sampled_from(FRESH), st.sampled_from(gen.NAME_POOL))
     shape = draw(st.integers(0, 5))
-    if shape == 0 and len(pool) >= 2:       # swap
-        a, b = pool[0], pool[1]
+    if shape == 0 and len(order) >= 2:       # swap
+        a, b = order[0], order[1]
         lookup = {a: b, b: a}
-    elif shape == 1 and len(pool) >= 3:     # chain / rotation
-        lookup = {pool[0]: pool[1], pool[1]: pool[2]}
+    elif shape == 1 and len(order) >= 3:     # chain / rotation
+        lookup = {order[0]: order[1], order[1]: order[2]}
         if draw(st.booleans()):
-            lookup[pool[2]] = pool[0]
+            lookup[order[2]] = order[0]
     else:
         lookup = draw(st.dictionaries(key_st, val_st, min_size=2, max_size=5))
     val_st2 = st.one_of(st.integers(-9, 9).map(float), st.floats(-100, 100, allow_nan=False).map(lambda v: round(v, 3)))
